@@ -12,9 +12,9 @@ import (
 	"fmt"
 	"io"
 	"net/http"
-	"net/http/httptest"
 	"strings"
 	"sync"
+	"verifharness/internal/netx"
 
 	"github.com/ipfs/go-cid"
 	"github.com/ipld/go-ipld-prime"
@@ -110,7 +110,9 @@ func newTarget(mode string) (*target, error) {
 	t := &target{rec: rec, ch: ch}
 	switch mode {
 	case "served":
-		t.pub, err = ipnisync.NewPublisher(ls, key, ipnisync.WithHTTPListenAddrs("127.0.0.1:0"), ipnisync.WithHeadTopic(topic))
+		t.pub, err = netx.Retry(func() (*ipnisync.Publisher, error) {
+			return ipnisync.NewPublisher(ls, key, ipnisync.WithHTTPListenAddrs("127.0.0.1:0"), ipnisync.WithHeadTopic(topic))
+		})
 		if err != nil {
 			return nil, err
 		}
@@ -131,7 +133,7 @@ func newTarget(mode string) (*target, error) {
 		if err != nil {
 			return nil, err
 		}
-		srv := httptest.NewServer(t.pub)
+		srv := netx.NewServer(t.pub)
 		t.base = srv.URL + pfx + ipnisync.IPNIPath
 		t.stop = func() { srv.Close(); t.pub.Close() }
 	}
@@ -279,7 +281,9 @@ func clients(r *rep.Report, file string) error {
 		ads.Store.Put(c, b)
 	}
 	rec := &recorder{}
-	pub, err := ipnisync.NewPublisher(rec.wrap(ads.Store.LinkSystem()), ids.Key("x01-client-pub"), ipnisync.WithHTTPListenAddrs("127.0.0.1:0"))
+	pub, err := netx.Retry(func() (*ipnisync.Publisher, error) {
+		return ipnisync.NewPublisher(rec.wrap(ads.Store.LinkSystem()), ids.Key("x01-client-pub"), ipnisync.WithHTTPListenAddrs("127.0.0.1:0"))
+	})
 	if err != nil {
 		return err
 	}
